@@ -64,6 +64,8 @@ def run(ctx) -> None:
     ctx.rule("R11.7", "cache_clear / cache_info / cache_parameters discipline: every counter is reset to 0, nothing else survives a clear (R10.3, shared)")
     for kind in CLASSES:
         c10.r10_3(Relabel(ctx, "R11.7"), LruClass(ctx, kind))
+    ctx.rule("R11.9", "every hit refreshes the entry's recency, whatever happened while other calls were in flight (R10.2, shared)")
+    c10.r10_2(Relabel(ctx, "R11.9"), LruClass(ctx, "cached"))
     ctx.rule("R11.8", "two calls share an entry only if their argument patterns are equal: key table vs functools._make_key (R10.1, shared)")
     c10.r10_1(Relabel(ctx, "R11.8"))
     ctx.floor("wrapper_classes", 3)
@@ -118,6 +120,9 @@ def check_call(ctx, lc: LruClass) -> None:
         if n.kind == "await" and not n.tag:
             ctx.check(lc.is_wrapped_await(u, n), "R11.1", u, n,
                       "the only await in __call__ is the call of the wrapped function", node=n)
+            ctx.check(not n.in_loop(), "R11.1", u, n,
+                      "the wrapped function is not awaited inside a loop (one call of the cache is at most one invocation: "
+                      "misses counts invocations)", node=n)
     for path in paths:
         ctx.count("call_paths")
         kind, ret = path_kind(lc, path)
